@@ -534,6 +534,26 @@ def _route_diffs(case, res, m):
 
 
 ROOT_TOUCH = "rejected-line-touches-write-target"
+ROOT_READER = "upstream-pipe-reader-closed-under-middle-alias-when-last-stage-exits"
+
+
+def _reader_closed_under_alias(case, res):
+    """One root cause with many faces (found by the thorough tier under load, then made deterministic
+    with a slow first stage): when the LAST stage of a pipeline exits while a callable-alias stage in the
+    MIDDLE is still reading its stdin, CommandPipeline._close_prev_procs closes the read end of the pipe
+    the alias reads from; the alias thread dies with EBADF before its first write and all of its output
+    is lost.  Recognised only when exactly that is observed: the alias thread's EBADF report is there and
+    nothing at all of the alias arrived anywhere."""
+    meta = case.get("meta", {})
+    if meta.get("family") != "earlyexit" or meta.get("pos") != "mid3":
+        return False
+    t = meta["t"]
+    word = H.stage_word("thr", t, case["stages"][t - 1])
+    errs = (res.get("term2") or "") + (res.get("cap_err") or "")
+    if "[Errno 9] Bad file descriptor" not in errs or f"'alias': '{word}'" not in errs:
+        return False
+    everything = errs + (res.get("term1") or "") + str(res.get("cap_out") or "") + "".join(v or "" for v in (res.get("files") or {}).values())
+    return not any(tag in everything for tag in (f"O{t}\n", f"I{t}_", f"E{t}\n"))
 
 
 def judge(case, res):
@@ -575,6 +595,8 @@ def judge(case, res):
         return None
     if not diffs:
         return None
+    if _reader_closed_under_alias(case, res):
+        return ("each stream ends up completely and only where the operators say", ROOT_READER, _obs_text(case, res), _exp_text(m))
     return ("each stream ends up completely and only where the operators say", "route:" + _sig(diffs, None), _obs_text(case, res), _exp_text(m))
 
 
@@ -932,6 +954,17 @@ def gen_cases(thorough):
         case["meta"]["kind"] = f"thr.drip|{ck}.early"
         case["stages"][t - 1]["bulk"] = "drip"
         case["stages"][t]["early"] = True
+    #     ... and the same with a SLOW first stage in front of the alias (mid3): the alias is still
+    #     blocked reading its stdin when the last stage leaves
+    for classes, ck, cap in itertools.product(drip_sets[:1] if not thorough else drip_sets, ("ext", "thr") if thorough else ("ext",), ("bare", "$()", "!()") if thorough else ("bare",)):
+        redirs, pre = redirs_for(classes)
+        t, n = POSITIONS["mid3"]
+        add("earlyexit", "+".join(classes), " ".join(r["op"] for r in redirs), "thr", "mid3", cap, redirs, pre, (ck,) * (n - 1), True, "existing")
+        case = cases[-1]
+        case["meta"]["kind"] = f"{ck}.slow|thr.drip|{ck}.early"
+        case["stages"][0]["slow"] = True
+        case["stages"][t - 1]["bulk"] = "drip"
+        case["stages"][t]["early"] = True
 
     # 14. quick tier only (thorough has the whole product for unthreadable aliases): `e>o` in every
     #     spelling on an unthreadable alias under the capturing forms, where stderr must follow
@@ -1036,7 +1069,7 @@ def run(ctx):
     # pair / no-space / malformed case whose single-operator sibling fails in the same context is
     # counted under that sibling's key.
     def kind_of(sig):
-        return "touch" if sig.startswith(ROOT_TOUCH) else "reject" if sig.startswith("reject:") else "route"
+        return "touch" if sig.startswith((ROOT_TOUCH, ROOT_READER)) else "reject" if sig.startswith("reject:") else "route"
 
     def shape(case):
         return "-".join(st["kind"] for st in case["stages"])
